@@ -4,6 +4,7 @@ import (
 	"fmt"
 	"go/ast"
 	"go/token"
+	"os"
 	"path/filepath"
 	"strconv"
 	"strings"
@@ -104,7 +105,7 @@ func pos(n ast.Node) token.Position { return fset.Position(n.Pos()) }
 func pureFamily(files []string) string {
 	w := &pWorld{pkgs: map[string]*pPkg{}}
 	for _, path := range files {
-		f := parse(path)
+		f := parsePackageDir(path)
 		p := &pPkg{name: f.Name.Name, file: f, path: path, imports: map[string]string{}, types: map[string]*pType{}, consts: map[string]*pType{}}
 		if _, dup := w.pkgs[p.name]; dup {
 			panic(untranslatable{"two files of package " + p.name + " (one file per package expected)"})
@@ -519,6 +520,18 @@ func (w *pWorld) emitPkg(p *pPkg, sb *strings.Builder, digest *[]string) {
 		case token.IMPORT, token.TYPE:
 			continue
 		case token.VAR:
+			// `var _ I = x` only asserts at compile time that x implements I
+			blank := true
+			for _, s := range gd.Specs {
+				for _, n := range s.(*ast.ValueSpec).Names {
+					if n.Name != "_" {
+						blank = false
+					}
+				}
+			}
+			if blank {
+				continue
+			}
 			fail(pos(gd), "package-level var")
 		}
 		for _, s := range gd.Specs {
@@ -527,10 +540,16 @@ func (w *pWorld) emitPkg(p *pPkg, sb *strings.Builder, digest *[]string) {
 				fail(pos(vs), "constant declaration must be `Name [Type] = value` (no iota / implicit repetition)")
 			}
 			name, val := vs.Names[0].Name, vs.Values[0]
-			if vs.Type != nil {
-				r := w.resolve(p, vs.Type, map[string]string{})
+			typ := vs.Type
+			if lit, ok := val.(*ast.BasicLit); ok && typ != nil && lit.Kind == token.STRING {
+				// `Name T = "s"` is `Name = T("s")`
+				val = &ast.CallExpr{Fun: typ, Args: []ast.Expr{lit}}
+				typ = nil
+			}
+			if typ != nil {
+				r := w.resolve(p, typ, map[string]string{})
 				if r.decl == nil || r.decl.kind != "basic" || r.decl.basic != "Int" {
-					fail(pos(vs), "constant %s: unsupported type %s", name, src(vs.Type))
+					fail(pos(vs), "constant %s: unsupported type %s", name, src(typ))
 				}
 				fmt.Fprintf(sb, "def %s_%s : %s := %s\n\n", p.name, name, r.lean, intLit(val))
 				p.consts[name] = r.decl
@@ -854,6 +873,7 @@ func (w *pWorld) emitMethod(t *pType, fd *ast.FuncDecl, sb *strings.Builder) {
 		}
 		params = append(params, fmt.Sprintf("(%s : %s)", strings.Join(names, " "), strip(r.lean)))
 	}
+	sinkResultVar(fd)
 	res := w.resolve(p, oneResult(fd.Type, what), env)
 	fmt.Fprintf(sb, "/-- %s: %s -/\ndef %s_%s%s %s : μ %s := do\n", what, cmt(src(fd.Body)), t.lname(), fd.Name.Name, binders(tps), strings.Join(params, " "), res.lean)
 	sb.WriteString(sc.body(fd.Body, what))
@@ -1311,4 +1331,183 @@ func literalFromAssignments(fd *ast.FuncDecl) {
 		elts = append(elts, &ast.KeyValueExpr{Key: ast.NewIdent(sel.Sel.Name), Value: as.Rhs[0]})
 	}
 	fd.Body.List = []ast.Stmt{&ast.ReturnStmt{Results: []ast.Expr{&ast.CompositeLit{Type: vs.Type, Elts: elts}}}}
+}
+
+// A result variable that is assigned and returned at the end is the returns it stands for:
+//
+//	func … (o T) { o = E0; switch { case c1: o = E1 … }; return [o] }
+//	func … T     { o := E0; switch { case c1: o = E1 … }; return o }
+//
+// become `switch { case c1: return E1 …; default: return E0 }` (an if/else-if chain likewise). Each branch is exactly
+// one assignment of the variable; conditions and values must not mention it.
+func sinkResultVar(fd *ast.FuncDecl) {
+	if fd.Body == nil || fd.Type.Results == nil || len(fd.Type.Results.List) != 1 || len(fd.Body.List) < 2 {
+		return
+	}
+	rf := fd.Type.Results.List[0]
+	list := fd.Body.List
+	last, ok := list[len(list)-1].(*ast.ReturnStmt)
+	if !ok {
+		return
+	}
+	o := ""
+	named := false
+	if len(rf.Names) == 1 {
+		o, named = rf.Names[0].Name, true
+		if len(last.Results) == 1 {
+			if i, ok := last.Results[0].(*ast.Ident); !ok || i.Name != o {
+				return
+			}
+		} else if len(last.Results) != 0 {
+			return
+		}
+	} else if len(rf.Names) == 0 && len(last.Results) == 1 {
+		i, ok := last.Results[0].(*ast.Ident)
+		if !ok {
+			return
+		}
+		o = i.Name
+	} else {
+		return
+	}
+	mentions := func(n ast.Node) bool {
+		found := false
+		ast.Inspect(n, func(m ast.Node) bool {
+			if i, ok := m.(*ast.Ident); ok && i.Name == o {
+				found = true
+			}
+			return true
+		})
+		return found
+	}
+	assigned := func(st ast.Stmt, define bool) ast.Expr {
+		as, ok := st.(*ast.AssignStmt)
+		if !ok || len(as.Lhs) != 1 || len(as.Rhs) != 1 || (as.Tok != token.ASSIGN && !(define && as.Tok == token.DEFINE)) {
+			return nil
+		}
+		if i, ok := as.Lhs[0].(*ast.Ident); !ok || i.Name != o || mentions(as.Rhs[0]) {
+			return nil
+		}
+		return as.Rhs[0]
+	}
+	mid := list[:len(list)-1]
+	var cur ast.Expr
+	if e := assigned(mid[0], !named); e != nil {
+		cur = e
+		mid = mid[1:]
+	} else if !named {
+		return // the variable's declaration is not understood
+	}
+	if len(mid) != 1 {
+		return
+	}
+	ret := func(e ast.Expr) []ast.Stmt { return []ast.Stmt{&ast.ReturnStmt{Results: []ast.Expr{e}}} }
+	switch st := mid[0].(type) {
+	case *ast.SwitchStmt:
+		if st.Init != nil || st.Tag != nil {
+			return
+		}
+		clauses := []ast.Stmt{}
+		hasDefault := false
+		for _, cc := range st.Body.List {
+			c := cc.(*ast.CaseClause)
+			for _, e := range c.List {
+				if mentions(e) {
+					return
+				}
+			}
+			if c.List == nil {
+				hasDefault = true
+			}
+			var e ast.Expr
+			if len(c.Body) == 0 {
+				e = cur
+			} else if len(c.Body) == 1 {
+				e = assigned(c.Body[0], false)
+			}
+			if e == nil {
+				return
+			}
+			clauses = append(clauses, &ast.CaseClause{Case: c.Case, List: c.List, Body: ret(e)})
+		}
+		if !hasDefault {
+			if cur == nil {
+				return
+			}
+			clauses = append(clauses, &ast.CaseClause{Case: last.Pos(), Body: ret(cur)})
+		}
+		st.Body.List = clauses
+		fd.Body.List = []ast.Stmt{st}
+	case *ast.IfStmt:
+		out := []ast.Stmt{}
+		var is ast.Stmt = st
+		for is != nil {
+			x, ok := is.(*ast.IfStmt)
+			if !ok {
+				// final else block
+				b, ok := is.(*ast.BlockStmt)
+				if !ok || len(b.List) != 1 {
+					return
+				}
+				e := assigned(b.List[0], false)
+				if e == nil {
+					return
+				}
+				cur = e
+				break
+			}
+			if x.Init != nil || mentions(x.Cond) || len(x.Body.List) != 1 {
+				return
+			}
+			e := assigned(x.Body.List[0], false)
+			if e == nil {
+				return
+			}
+			out = append(out, &ast.IfStmt{If: x.If, Cond: x.Cond, Body: &ast.BlockStmt{Lbrace: x.Body.Lbrace, List: ret(e)}})
+			is = x.Else
+		}
+		if cur == nil {
+			return
+		}
+		out = append(out, &ast.ReturnStmt{Return: last.Pos(), Results: []ast.Expr{cur}})
+		fd.Body.List = out
+	default:
+		return
+	}
+	if named {
+		rf.Names = nil
+	}
+}
+
+// A directory stands for its package: the declarations (and imports) of all its non-test files, as one file.
+func parsePackageDir(path string) *ast.File {
+	st, err := os.Stat(path)
+	if err != nil || !st.IsDir() {
+		return parse(path)
+	}
+	ents, err := os.ReadDir(path)
+	if err != nil {
+		panic(untranslatable{"cannot read " + path})
+	}
+	var merged *ast.File
+	for _, e := range ents {
+		n := e.Name()
+		if !strings.HasSuffix(n, ".go") || strings.HasSuffix(n, "_test.go") {
+			continue
+		}
+		f := parse(filepath.Join(path, n))
+		if merged == nil {
+			merged = f
+			continue
+		}
+		if f.Name.Name != merged.Name.Name {
+			panic(untranslatable{"two packages in " + path})
+		}
+		merged.Decls = append(merged.Decls, f.Decls...)
+		merged.Imports = append(merged.Imports, f.Imports...)
+	}
+	if merged == nil {
+		panic(untranslatable{"no source file in " + path})
+	}
+	return merged
 }
